@@ -299,7 +299,7 @@ func init() {
 					b   uint
 					len int
 				}{{256 * 1024, MB + 12345}, {64 * 1024, 600000}} {
-					p := Params{"NONE", "NONE", cfg.b, jobs, 32, -1, false}
+					p := Params{"NONE", "NONE", cfg.b, jobs, 32, -1, false, false}
 					data := shape("random", cfg.len)
 					ncalls := countSinkCalls(data, p)
 					c.Extra(fmt.Sprintf("sink_calls_fault_free_b%d_j%d", cfg.b, jobs), ncalls)
@@ -322,7 +322,7 @@ func init() {
 			// 256 KiB bitstream buffer byte by byte; every sink call after the first one fails.
 			for _, jobs := range []uint{1, 2} {
 				for l := 262136 - 64; l <= 262136+16; l++ {
-					p := Params{"NONE", "NONE", 512 * 1024, jobs, 0, -1, false}
+					p := Params{"NONE", "NONE", 512 * 1024, jobs, 0, -1, false, false}
 					emit(wfCase{P: p, Len: l, Kind: "persist", K: 0, Policy: "stop", Parts: l})
 					emit(wfCase{P: p, Len: l, Kind: "err-once", K: 0, Policy: "close-twice", Parts: l})
 				}
@@ -335,7 +335,7 @@ func init() {
 					len   int
 					chunk int
 				}{{64 * 1024, 600000, 0}, {64 * 1024, 600000, 65536}, {1024, 9000, 1024}, {1024, 9000, 4096}} {
-					p := Params{"NONE", "NONE", cfg.b, 2, 32, -1, false}
+					p := Params{"NONE", "NONE", cfg.b, 2, 32, -1, false, false}
 					// number of source calls in a fault-free run
 					data := shape("random", cfg.len)
 					stream, _, _ := compress(data, p)
